@@ -263,6 +263,15 @@ func runCtlScenario(w *ndWriter, seed int64, variant string, idx int) bool {
 				time.Sleep(time.Duration(rng.Intn(12000)) * time.Microsecond)
 			}
 		}
+		if variant == "relist" && rng.Intn(4) == 0 && !isClosed(ctl.Done()) {
+			// a burst the slowed controller cannot keep up with: the watcher's buffer overflows, events are lost,
+			// and only the next relist can repair the cache
+			slowNow = 2 * time.Millisecond
+			for i := 0; i < 130+rng.Intn(60); i++ {
+				s.mutate()
+			}
+			time.Sleep(20 * time.Millisecond)
+		}
 		slowNow = 0
 		if variant == "listfail" {
 			// the failing list must stop the controller by itself
